@@ -78,9 +78,12 @@ class Report:
         return cond
 
     def inconclusive(self, rule, site, construct, why, line=None):
+        msg = f'{rule} at {site}: {why}'
+        if msg in self.errors:
+            return              # one report per (rule, site, reason)
         self.obs.append(Obligation(rule, site, construct, INCONCLUSIVE, why,
                                    None, line))
-        self.errors.append(f'{rule} at {site}: {why}')
+        self.errors.append(msg)
 
     def error(self, msg):
         self.errors.append(msg)
